@@ -594,7 +594,9 @@ def _prepare_czt_basis(N, M, K, shift, alpha, dtype, norm=False):
     h = np.zeros(K, dtype=dtype)
 
     # need to populate h piecewise, see Jurling2014 48c, 48d
-    start = -((N - M) // 2) + shift
+    # the origin is sample n//2 in both domains, so output index 0 minus input index 0
+    # is -(M//2) + N//2; (N - M)//2 differs from that when N is even and M is odd
+    start = -(N//2 - M//2) + shift
     j = np.arange(-start, -start+M, dtype=dtype)  # do not need a "-1" because arange is naturally end-exclusive
     # j is an index variable
     h[:M] = np.pi * (j * j)
